@@ -195,3 +195,21 @@ package dns
 // (*generateReader).ReadByte, for readers supplied by the caller it is trusted
 //@ iface io.ByteReader.ReadByte
 //@   modifies A.uint8.v H.bytes.Buffer.buf.cap H.bytes.Buffer.buf.len H.bytes.Buffer.buf.off H.bytes.Buffer.buf.ref H.bytes.Buffer.lastRead.v H.bytes.Buffer.off.v H.generateReader.cur.v H.generateReader.eof.v H.generateReader.escape.v H.generateReader.si.v
+
+//@ extern net.ParseCIDR
+//@   ensures ret2 == nil ==> ret1 != nil
+//@   fresh
+
+//@ extern strconv.Atoi
+//@   ensures ret1 == nil ==> len(s) > 0
+//@   pure
+//@ extern strings.Count
+//@   ensures ret0 >= 0
+//@   pure
+
+//@ extern strconv.ParseUint
+//@   ensures ret1 == nil ==> len(s) > 0
+//@   pure
+//@ extern strconv.ParseInt
+//@   ensures ret1 == nil ==> len(s) > 0
+//@   pure
